@@ -12,7 +12,7 @@
                                notifier.Connected, EReturnPeer = Connect hands the peer to its caller,
                                EClosePeer = the connection is closed, EBlock d);
      has_notifier, add       = whether a notifier is set, and the outcome of peers.addPeer
-                               (both outcomes are covered).
+                               (all outcomes are covered).
    All theorems hold for every script (any length, any contents), every oracle, every write-failure
    pattern, every local configuration. *)
 From Coq Require Import String List NArith ZArith Bool.
@@ -197,16 +197,55 @@ Theorem C04_checker_sound : forall c A T,
 Proof. exact checker_sound. Qed.
 Print Assumptions C04_checker_sound.
 
-(* "... the provider registry confirmed A's stake at that moment": in a session of handshakes on one
-   long-lived service, the k-th handshake enrols a provider only on the registry's answer given during
-   the k-th handshake (one lookup, for A), whatever was answered before. *)
-Theorem C04_stake_at_that_moment : forall c steps k s A,
-  nth_error steps k = Some s ->
-  (exists r, nth_error (session c steps) k = Some r /\ res r = Enrol A type_provider) ->
-  registered (s_oracles s) A = true /\ addr_of_pid (s_oracles s) = POk A /\
-  exists r, nth_error (session c steps) k = Some r /\ lookups r = [A].
-Proof. exact session_stake_at_that_moment. Qed.
-Print Assumptions C04_stake_at_that_moment.
+(* ---- Connect's tail and head; one remote over time ----------------------------------------------------------
+   Connect tells its caller "connected (A, T)" only when the remote is in the peer registry at that point
+   (registered by this call, or found by getPeer after addPeer answered "exists"); when the connection
+   closed during an admissible handshake nothing is registered and the caller gets ErrPeerNotFound.
+   [connect_tail add known] is the tail of Connect with [known] = the answer of getPeer after addPeer said
+   "exists"; [connect add] = [connect_tail add true] (used by C04_initiator and the blocking theorems; the
+   refusal branch does not depend on [known]).  connect_tail_v1, the wrapper before commit db8f6a6, is
+   refuted: Handshake_proofs.connect_tail_v1_refuted. *)
+Theorem C04_outbound_told_implies_known : forall add known r A T,
+  In (EReturnPeer A T) (connect_tail add known r) ->
+  r = Enrol A T /\ known_after add known = true /\
+  (add = Added -> connect_tail add known r = [ERegister A T; EReturnPeer A T]) /\
+  (add = NotAdded -> connect_tail add known r = [EReturnPeer A T]).
+Proof. exact outbound_told_implies_known. Qed.
+Print Assumptions C04_outbound_told_implies_known.
+
+Theorem C04_outbound_gone : forall add known a t,
+  known_after add known = false -> connect_tail add known (Enrol a t) = [EReturnNotFound].
+Proof. exact outbound_gone. Qed.
+Print Assumptions C04_outbound_gone.
+
+(* The node over time (model/Handshake.v, node_step): state = the registry entry of the remote; events =
+   inbound handshake streams, calls of Connect, loss of the last connection; each event carries its own
+   oracle answers.  Connect first asks isConnected and returns a present entry WITHOUT any handshake.
+   Invariant: an entry (A, T) is backed -- some earlier event carried an admissible handshake for (A, T)
+   and the remote was not disconnected since. *)
+Theorem C04_entry_backed : forall c evs A T,
+  node_run c evs = Some (A, T) -> backed c evs A T.
+Proof. exact node_entry_backed. Qed.
+Print Assumptions C04_entry_backed.
+
+(* For every history and every next event: a Register or Notify effect for (A, T) is produced only by an
+   event whose OWN handshake is admissible with the answers (signature, transport identity, registry)
+   given during that event -- "at that moment" -- and only when there was no entry; a peer returned by
+   Connect is either that, or the short cut: then it is exactly the registered record, no handshake and no
+   registry question take place, and what C04 guarantees is that the record stems from an admissible
+   handshake of the current connection period (the stake was confirmed then, it is NOT confirmed again). *)
+Theorem C04_announcements_in_histories : forall c evs ev e A T,
+  In e (snd (node_step c (node_run c evs) ev)) ->
+  (e = ERegister A T \/ e = ENotify A T -> event_proves c ev A T /\ node_run c evs = None) /\
+  (e = EReturnPeer A T ->
+     (event_proves c ev A T /\ node_run c evs = None /\ node_run c (evs ++ [ev]) = Some (A, T)) \/
+     (exists o wf sc cl, ev = EvConnect o wf sc cl /\ node_run c evs = Some (A, T) /\ backed c evs A T /\
+                         snd (node_step c (node_run c evs) ev) = [EReturnPeer A T])).
+Proof. exact node_announcements. Qed.
+Print Assumptions C04_announcements_in_histories.
+(* That handshake.Service itself keeps nothing between handshakes is the shape of the model ([handle] and
+   [handshake] have no state argument), not a theorem; it is what the driver's session classes test (a
+   prelude of handshakes on one long-lived Service, registry answers changing in between). *)
 
 (* ---- composition with C17 (proofs/Compose_p2p.v) -----------------------------------------------------------
    The EBlock effects above are the Block events of model/Blocklist.v ([Compose_p2p.block_events p t0 effs]:
